@@ -189,4 +189,50 @@ pub use crate::{
 pub mod verif {
     pub use crate::chunker::verif_hooks as chunker;
     pub use crate::error::verif_hooks as error;
+    pub use crate::crypto::aespoly1305::verif_hooks as aespoly1305;
+    pub use crate::crypto::hasher::verif_hooks as hasher;
+    pub use crate::backend::decrypt::verif_hooks as decrypt;
+    pub use crate::repofile::packfile::verif_hooks as packfile;
+    pub use crate::repofile::indexfile::verif_hooks as indexfile;
+    pub use crate::repofile::keyfile::verif_hooks as keyfile;
+    pub use crate::repofile::configfile::verif_hooks as configfile;
+    pub use crate::repofile::snapshotfile::verif_hooks as snapshotfile;
+    pub use crate::blob::packer::verif_hooks as packer;
+    pub use crate::blob::verif_hooks as blob;
+    pub use crate::blob::tree::verif_hooks as tree;
+    pub use crate::blob::tree::modify::verif_hooks as tree_modify;
+    pub use crate::blob::tree::rewrite::verif_hooks as tree_rewrite;
+    pub use crate::index::verif_hooks as index;
+    pub use crate::index::binarysorted::verif_hooks as binarysorted;
+    pub use crate::index::indexer::verif_hooks as indexer;
+    pub use crate::commands::prune::verif_hooks as prune;
+    pub use crate::commands::forget::verif_hooks as forget;
+    pub use crate::commands::check::verif_hooks as check;
+    pub use crate::commands::restore::verif_hooks as restore;
+    pub use crate::commands::config::verif_hooks as config;
+    pub use crate::commands::key::verif_hooks as key;
+    pub use crate::commands::copy::verif_hooks as copy;
+    pub use crate::commands::merge::verif_hooks as merge;
+    pub use crate::commands::rewrite::verif_hooks as rewrite;
+    pub use crate::commands::backup::verif_hooks as backup;
+    pub use crate::commands::init::verif_hooks as init;
+    pub use crate::commands::dump::verif_hooks as dump;
+    pub use crate::commands::repair::index::verif_hooks as repair_index;
+    pub use crate::commands::repair::snapshots::verif_hooks as repair_snapshots;
+    pub use crate::commands::repair::hotcold::verif_hooks as repair_hotcold;
+    pub use crate::archiver::verif_hooks as archiver;
+    pub use crate::archiver::parent::verif_hooks as parent;
+    pub use crate::archiver::tree::verif_hooks as archiver_tree;
+    pub use crate::archiver::tree_archiver::verif_hooks as tree_archiver;
+    pub use crate::archiver::file_archiver::verif_hooks as file_archiver;
+    pub use crate::backend::node::verif_hooks as node;
+    pub use crate::backend::hotcold::verif_hooks as hotcold;
+    pub use crate::backend::cache::verif_hooks as cache;
+    pub use crate::backend::dry_run::verif_hooks as dry_run;
+    pub use crate::backend::local_destination::verif_hooks as local_destination;
+    pub use crate::backend::warm_up::verif_hooks as be_warm_up;
+    pub use crate::repository::verif_hooks as repository;
+    pub use crate::repository::warm_up::verif_hooks as repo_warm_up;
+    pub use crate::vfs::verif_hooks as vfs;
+    pub use crate::id::verif_hooks as id;
 }
